@@ -85,8 +85,8 @@ Proof. exact rebind_fresh. Qed.
 Print Assumptions C11_rebind_fresh_partial.
 
 (* which interceptors satisfy all premises (feature records after the fix: commits).
-   nack_responder: its per-NACK resend goroutines are outside the model; since the fix they are counted by a
-   WaitGroup that Close waits for and are not started once closed (checked by the gated and concurrent runs) *)
+   nack_responder: its per-NACK resend goroutines are one-shot goroutines of the model (f_spawn); since the
+   fix they are counted by a WaitGroup that Close waits for and are not started once closed *)
 Theorem C11_safe_instances :
   safe_cfg nack_generator_cfg = true /\ safe_cfg nack_responder_cfg = true /\
   safe_cfg report_receiver_cfg = true /\ safe_cfg report_sender_cfg = true /\
